@@ -78,9 +78,10 @@ func properties() map[string]*PropertySpec {
 		}})
 	add(&PropertySpec{ID: "C10",
 		Functions: "(*conn).serveRequests, (*conn).readRequest, (*conn).close, newRequest, (*Mux).serve, unbindRoute handler dispatch",
-		Outside:   []string{"pipelines longer than 4 frames", "earlier handlers blocked while the Unbind arrives is covered by the schedule exploration of C08"},
+		Outside:   []string{"pipelines longer than 4 frames of symbolic kind; more than 33 handlers in flight at the Unbind"},
 		Harnesses: []HarnessSpec{
-			nat("H_C10_unbind", "unbind done", "1..4 frames of symbolic kind with the Unbind at every position, with and without an unbind route", ""),
+			nat("H_C10_unbind", "unbind done", "1..4 frames of symbolic kind (delete, add, extended operation with any name <= 24 bytes other than StartTLS) with the Unbind at every position, with and without an unbind route", ""),
+			nat("H_C10_manyblocked", "manyblocked", "17 or 33 earlier handlers still running (held by a gate) when the Unbind is read; concrete frames", ""),
 		}})
 	eng := func(name, reach, bound, tiers string) HarnessSpec {
 		return HarnessSpec{Name: name, Native: false, Reach: []string{reach}, Bound: bound, Tiers: tiers}
@@ -95,15 +96,18 @@ func properties() map[string]*PropertySpec {
 		Functions: "(*conn).serveRequests, serveRequests$1, (*conn).readRequest, newRequest, newResponseWriter, (*Mux).serve",
 		Outside:   []string{"pipelines longer than 3 requests; hundreds of simultaneous connections (connections share no state in serveRequests)", "'without waiting' is decided under the late schedule (spawned handlers run only once the read loop blocks or ends): every handler must observe that all M frames had already been read"},
 		Harnesses: []HarnessSpec{
-			nat("H_C06_numbering", "numbered", "1..3 frames of symbolic kind, optional read error at the end; late schedule", ""),
+			nat("H_C06_numbering", "numbered", "1..3 frames of symbolic kind (delete, add, extended operation with any name <= 24 bytes other than StartTLS), optional read error at the end; late schedule", ""),
 			nat("H_C03_pairing", "paired", "eager schedule: request j = j-th frame, writer/request pairing", ""),
 			eng("H_C06_blockedwriter", "blockedwriter", "2..3 pipelined requests on a connection whose client never reads (handlers block inside Write) plus a second connection", ""),
 		}})
 	add(&PropertySpec{ID: "C13",
 		Functions: "(*conn).serveRequests (StartTLS branch), (*Request).StartTLS, (*conn).initConn, newResponseWriter, (*ResponseWriter).Write",
-		Outside:   []string{"that bytes through a TLS connection are protected and that the handshake reads the client's first byte from the raw socket is crypto/tls's contract (§5.5)", "earlier in-flight handlers still holding the plaintext writer (RFC 4511 §4.14.1 forbids pipelining around StartTLS)", "many sessions upgrading in parallel (sessions share no state)"},
+		Outside:   []string{"that bytes through a TLS connection are protected and that the handshake reads the client's first byte from the raw socket is crypto/tls's contract (§5.5)", "earlier in-flight handlers still holding the plaintext writer (RFC 4511 §4.14.1 forbids pipelining around StartTLS)", "more than two sessions upgrading in parallel (gldap sessions share no state; the test directory's handler is checked with two)"},
 		Harnesses: []HarnessSpec{
 			nat("H_C13_starttls", "starttls", "StartTLS at every position of 1..3 frames, handshake succeeds or fails", ""),
+			{Name: "H_TD_C13_parallel", Pkg: "testdirectory", Reach: []string{"parallel upgrades"},
+				Tweak: func(c *HarnessCfg, tier string) { c.ExtraPkgs["golang.org/x/exp/slices"] = true },
+				Bound: "test directory's StartTLS handler: one session waiting for its client's handshake while a second session binds, upgrades, or starts an upgrade of its own"},
 		}})
 	poC12 := func(p *PathResult, po *PO) []POFinding {
 		var out []POFinding
@@ -162,7 +166,7 @@ func properties() map[string]*PropertySpec {
 		Functions: "(*Server).Stop, (*Server).Run, Run$1 incl. the shutdown watcher, (*conn).serveRequests (shutdown branch), (*conn).close",
 		Outside:   []string{"'bounded time' is decided as termination that needs no client action (no wall-clock figure)", "one connection per scenario (Stop waits on a counter; connections do not interact)"},
 		Harnesses: []HarnessSpec{
-			eng("H_C11_stop", "stopped", "connection state at Stop: none, idle, TLS handshake pending, pipelining then idle, not reading its responses; with/without read timeout; optional concurrent second Stop", ""),
+			eng("H_C11_stop", "stopped", "connection state at Stop: none, idle, TLS handshake pending, pipelining then idle, not reading its responses, Stop arriving between two requests of a pipelining client that never reads (shutdown branch of the read loop, handlers still writing), slow handlers writing after the shutdown notice to a client whose window is full; with/without read timeout; optional concurrent second Stop", ""),
 		}})
 	add(&PropertySpec{ID: "C12",
 		Functions: "(*Server).Stop, (*Server).Run, Run$1 teardown (close, OnClose, connWg.Done), (*conn).close",
@@ -200,7 +204,7 @@ func properties() map[string]*PropertySpec {
 		Functions: "(*Server).Run (WithTLSConfig, tls.NewListener wrapping, Accept), newConn, (*conn).initConn, (*conn).serveRequests, readRequest, Run$1 teardown",
 		Outside:   []string{"that a TLS connection yields application bytes only after a handshake satisfying its configuration is the crypto/tls contract (DESIGN §5.5): assumed, not verified; plaintext bytes, a missing or wrong client certificate and an abandoned connect are all 'the handshake does not complete'", "testdirectory.GetTLSConfig / Start run with the x509 / ecdsa / pem / big / testify calls replaced by opaque stubs that never fail: only the configuration plumbing (ClientAuth, ClientCAs identity, which configuration reaches the listener) is decided"},
 		Harnesses: []HarnessSpec{
-			eng("H_C18_tls", "tls", "configurations {none, server authentication, client certificate required} x first client {conforming, failing handshake, abandoned connect} with a conforming second client, spawn-order schedules", ""),
+			eng("H_C18_tls", "tls", "server certificate from a static list, a GetCertificate callback or a GetConfigForClient callback; configurations {none, server authentication, client certificate required} x first client {conforming, failing handshake, abandoned connect} with a conforming second client, spawn-order schedules", ""),
 			{Name: "H_TD_C18_config", Pkg: "testdirectory", Reach: []string{"config"}, Bound: "GetTLSConfig with / without WithMTLS; x509 / ecdsa / pem / testify calls are opaque stubs that never fail",
 				Tweak: func(c *HarnessCfg, tier string) { c.OpaquePkgs = tdOpaque }},
 			{Name: "H_TD_C18_start", Pkg: "testdirectory", Reach: []string{"start"}, Bound: "Start with every subset of {WithNoTLS, WithMTLS}: the configuration the listener is wrapped with",
@@ -210,18 +214,22 @@ func properties() map[string]*PropertySpec {
 		var out []POFinding
 		// per thread: the bufio.Write/Flush calls; no call of another thread may fall between a Write and its Flush,
 		// and no two bufio calls of different threads may be unordered
-		type call struct{ idx, tid int; kind string }
+		type call struct{ idx, tid int; kind, obj string }
 		var calls []call
 		for i, e := range p.Events {
-			if e.Kind == "bufio.Write" || e.Kind == "bufio.Flush" {
-				calls = append(calls, call{i, e.Tid, e.Kind})
+			if e.Kind == "bufio.Write" || e.Kind == "bufio.Flush" || e.Kind == "bufio.Reset" {
+				obj := ""
+				if len(e.Args) > 0 {
+					obj = e.Args[0]
+				}
+				calls = append(calls, call{i, e.Tid, e.Kind, obj})
 			}
 		}
 		for a := 0; a < len(calls); a++ {
 			for b := 0; b < len(calls); b++ {
 				x, y := calls[a], calls[b]
-				if x.tid == y.tid {
-					continue
+				if x.tid == y.tid || x.obj != y.obj {
+					continue // one goroutine, or two different bufio.Writer objects (before / after an upgrade)
 				}
 				if a < b {
 					if v, order := po.Query(ex(x.idx), ex(y.idx), fmt.Sprintf("(= c%d c%d)", x.idx, y.idx)); v == Sat {
@@ -255,6 +263,8 @@ func properties() map[string]*PropertySpec {
 		Harnesses: []HarnessSpec{
 			{Name: "H_C05_writers", Native: true, Reach: []string{"writers"}, PO: poC05,
 				Bound: "2..3 concurrent handlers x 2 frames each, plain or after a StartTLS upgrade; spawn-order schedules + <= 1 preemption at a synchronisation point; per trace the partial-order queries: can two bufio calls of different goroutines coincide? can a foreign bufio call fall between a Write and its Flush?"},
+			{Name: "H_C05_upgrade_inflight", Reach: []string{"upgrade inflight"}, PO: poC05,
+				Bound: "a StartTLS request pipelined behind a request whose handler may still be in flight and followed by another request; spawn-order schedules; the same two partial-order queries per bufio.Writer object (Write, Flush, Reset)"},
 			nat("H_C05_step", "step", "one Write from an empty buffer and a free lock, write succeeds or fails, strings < 24 bytes", ""),
 		}})
 	poRaces := func(p *PathResult, po *PO) []POFinding {
@@ -271,6 +281,8 @@ func properties() map[string]*PropertySpec {
 		Outside:   []string{"the tracked locations are the fields of Server, Mux, conn and Directory (nested structs included, not followed through pointers into entries/slices); library objects (bufio, bytes.Buffer) are covered by C05's bufio queries", "generalisation is over all reorderings of the explored traces that keep each thread's observations, not over workloads beyond 2 connections x <= 4 requests / one served operation x one admin call", "WaitGroup reuse (connWg.Add concurrent with Wait from zero) is a documented-misuse pattern outside the field-level race model", "routes registered after Run"},
 		Harnesses: []HarnessSpec{
 			{Name: "H_C15_server", Reach: []string{"workload"}, PO: poRaces, Bound: "2 connections, pipelined requests with concurrent writes, optional StartTLS upgrade, 2 Ready pollers, early and final Stop, spawn-order schedules; per trace every conflicting pair of tracked accesses is a race query (can the two clocks coincide?)"},
+			{Name: "H_C05_upgrade_inflight", Reach: []string{"upgrade inflight"}, PO: poC05,
+				Bound: "the connection's bufio.Writer objects (library state owned by gldap): StartTLS pipelined behind an in-flight handler; can two method calls (Write, Flush, Reset) on one object from different goroutines coincide?"},
 			{Name: "H_TD_C15_directory", Pkg: "testdirectory", Reach: []string{"directory workload"}, PO: poRaces,
 				Tweak: func(c *HarnessCfg, tier string) { c.ExtraPkgs["golang.org/x/exp/slices"] = true },
 				Bound: "one served operation (bind, user search, add, modify, delete) concurrently with one of the 8 Set*/getter calls"},
